@@ -1,7 +1,7 @@
 (** C07 — macro expansion is hygienic: property theorems only. *)
 From Coq Require Import NArith List Bool.
 From ChibiV Require Import C07.Env C07.EnvProofs C07.Expand C07.RenamerProofs C07.ScopeProofs C07.ExpandProofs
-  C07.SynCloProofs C07.Strip C07.StripProofs C07.CoreProofs.
+  C07.SynCloProofs C07.Strip C07.StripProofs C07.CoreProofs C07.Template C07.TemplateProofs C07.TemplateProofs2.
 Import ListNotations.
 
 (** referential transparency: an identifier inserted by a macro (closure object over the definition
@@ -279,3 +279,100 @@ Theorem rename_invariance_core : forall a b mt G fuel st U x r,
   resolve [] mt fuel st [] (swap_env a b U ++ G) (swapU a b x) = OK r.
 Proof. exact rename_invariance_core_thm. Qed.
 Print Assumptions rename_invariance_core.
+
+(** *** round 4: expand-template of syntax-rules (lib/init-7.scm:1024-1069) with ellipsis (any depth), ellipsis
+    escapes (... tmpl), the literal ellipsis (... ...), custom ellipsis identifiers, vector and dotted templates.
+    [Template.compile] mirrors the named let `lp` (t, dim, ell-esc), [Template.eval] runs the generated code
+    (map / apply append / append / cons-source / list->vector); [TRen s] = (rename 's), a syntactic closure over
+    the macro's definition environment; the bindings [rho] are what the pattern matcher produced. *)
+
+(** THE hygiene statement for templates: whatever the template (ellipsis depth, escapes, vectors, dotted tails),
+    whatever the ellipsis identifier, if the values of the pattern variables carry no bare identifier of the
+    template language (they are user text, [TUser]), the instantiated template contains NO bare identifier: every
+    identifier the macro inserts went through the renamer *)
+Theorem template_inserted_identifiers_are_renamed : forall c vars fuel t rho out,
+  (forall s v, Template.assocN s rho = Some v -> Template.nobare v = true) ->
+  Template.expand_template c vars fuel t rho = Some out -> Template.nobare out = true.
+Proof. exact template_output_clean. Qed.
+Print Assumptions template_inserted_identifiers_are_renamed.
+
+(** the same for the code compiled at any ellipsis depth and in either escape state *)
+Theorem template_code_inserts_only_renamed : forall c vars fuel t dim esc k rho out,
+  Template.compile c vars fuel t dim esc = Template.TOK k ->
+  (forall s v, Template.assocN s rho = Some v -> Template.nobare v = true) ->
+  Template.eval k rho = Some out -> Template.nobare out = true.
+Proof. exact template_code_clean. Qed.
+Print Assumptions template_code_inserts_only_renamed.
+
+(** (... tmpl) is tmpl compiled with the ellipsis switched off ... *)
+Theorem ellipsis_escape_unwraps : forall c vars f x dim,
+  Template.ell_off c = false ->
+  Template.compile c vars (S f) (Template.TPair (Template.TSym (Template.ell c)) (Template.TPair x Template.TNil)) dim false
+  = Template.compile c vars f x dim true.
+Proof. exact escape_unwraps. Qed.
+Print Assumptions ellipsis_escape_unwraps.
+
+(** ... and for a tmpl that does not mention the ellipsis identifier the escape changes NOTHING: identifiers under
+    an escape are treated exactly like identifiers outside one (the seeded change C14-c2 quoted them instead) *)
+Theorem escaped_template_compiles_like_plain : forall c vars f x dim,
+  Template.ell_off c = false -> Template.nomark c x = true ->
+  Template.compile c vars (S f) (Template.TPair (Template.TSym (Template.ell c)) (Template.TPair x Template.TNil)) dim false
+  = Template.compile c vars f x dim false.
+Proof. exact escaped_plain_template. Qed.
+Print Assumptions escaped_template_compiles_like_plain.
+
+(** a rule body (... x) instantiates to the plain substitution of x: pattern variables by their values, EVERY other
+    identifier — the ellipsis identifier included — renamed; nothing is repeated *)
+Theorem escaped_template_is_substitution : forall c vars f x rho out,
+  Template.ell_off c = false ->
+  (forall s d, Template.assocN s vars = Some d -> Template.assocN s rho <> None) ->
+  Template.expand_template c vars (S f) (Template.TPair (Template.TSym (Template.ell c)) (Template.TPair x Template.TNil)) rho = Some out ->
+  out = Template.subst vars rho x.
+Proof. exact escape_form_is_substitution. Qed.
+Print Assumptions escaped_template_is_substitution.
+
+(** templates that do not mention the ellipsis identifier: the generated code computes the substitution *)
+Theorem plain_template_is_substitution : forall fuel c vars t dim esc k rho,
+  Template.nomark c t = true ->
+  (forall s d, Template.assocN s vars = Some d -> Template.assocN s rho <> None) ->
+  Template.compile c vars fuel t dim esc = Template.TOK k ->
+  Template.eval k rho = Some (Template.subst vars rho t).
+Proof. exact TemplateProofs.plain_template_is_substitution. Qed.
+Print Assumptions plain_template_is_substitution.
+
+(** (... ...) is the RENAMED ellipsis identifier *)
+Theorem literal_ellipsis_is_renamed : forall c vars f dim,
+  Template.ell_off c = false -> Template.assocN (Template.ell c) vars = None ->
+  Template.compile c vars (S (S f)) (Template.TPair (Template.TSym (Template.ell c)) (Template.TPair (Template.TSym (Template.ell c)) Template.TNil)) dim false
+  = Template.TOK (Template.CRen (Template.ell c)).
+Proof. exact literal_ellipsis. Qed.
+Print Assumptions literal_ellipsis_is_renamed.
+
+(** the fuel of [compile] is not a restriction: any fuel above the size of the template suffices *)
+Theorem template_compile_fuel_suffices : forall fuel c vars t dim esc,
+  Template.size t < fuel -> Template.compile c vars fuel t dim esc <> Template.TErr Template.E_FUEL.
+Proof. exact compile_fuel_suffices. Qed.
+Print Assumptions template_compile_fuel_suffices.
+
+(** nothing but the template's own identifiers is ever inserted: every renamed identifier of the instantiated template
+    is an identifier written in the template (pattern-variable values are user text and carry none) *)
+Theorem template_inserts_only_its_own_identifiers : forall c vars fuel t rho out,
+  (forall s v, Template.assocN s rho = Some v -> rens_in (Template.syms t) v = true) ->
+  Template.expand_template c vars fuel t rho = Some out -> rens_in (Template.syms t) out = true.
+Proof. exact template_rens_from_template. Qed.
+Print Assumptions template_inserts_only_its_own_identifiers.
+
+(** one ellipsis after an ellipsis-free compound sub-template: (a ...) instantiates to the list of the substitution
+    instances of a, one per repetition, the ellipsis variables (the pattern variables of a of depth > dim) bound to
+    the elements of that repetition, every other identifier renamed in every instance *)
+Theorem single_ellipsis_is_mapped_substitution : forall f c vars a dim rho k,
+  Template.ell_off c = false -> Template.nomark c a = true -> Template.is_sym a = false ->
+  (forall s d, Template.assocN s vars = Some d -> Template.assocN s rho <> None) ->
+  Template.compile c vars (S f) (Template.TPair a (Template.TPair (Template.TSym (Template.ell c)) Template.TNil)) dim false = Template.TOK k ->
+  exists vals,
+    Template.map_opt (fun v => Template.assocN v rho) (Template.fv vars (dim + 1) a []) = Some vals /\
+    Template.eval k rho =
+      Some (Template.of_list (map (fun i => Template.subst vars (combine (Template.fv vars (dim + 1) a []) (Template.row (map Template.tm_list vals) i) ++ rho) a)
+                                  (seq 0 (Template.min_len (map Template.tm_list vals))))).
+Proof. exact single_ellipsis_spec. Qed.
+Print Assumptions single_ellipsis_is_mapped_substitution.
